@@ -1569,7 +1569,84 @@ fn long_password_cases(ctx: &mut Ctx) {
     }
 }
 
+/// keys whose components are locked differently (primary locked / encryption subkey not, and the
+/// reverse), presented with no, the right and unrelated key passwords: every component that can be
+/// used with what was presented is used (oracle only)
+fn mixed_lock_cases(ctx: &mut Ctx) {
+    use std::io::Read;
+    let data = b"mixed lock state".to_vec();
+    for (ci, (ppw, spw)) in [(Some("primary-pw"), None), (None, Some("subkey-pw")), (Some("p1"), Some("p2")), (None, None)].into_iter().enumerate() {
+        for v6 in [false, true] {
+            let built = guarded(|| {
+                let mut rng = rand::thread_rng();
+                let version = if v6 { KeyVersion::V6 } else { KeyVersion::V4 };
+                let (pt, st) = if v6 { (KeyType::Ed25519, KeyType::X25519) } else { (KeyType::Ed25519Legacy, KeyType::ECDH(ECCCurve::Curve25519Legacy)) };
+                let sub = SubkeyParamsBuilder::default().version(version).key_type(st).can_encrypt(EncryptionCaps::All).passphrase(spw.map(|s: &str| s.to_string())).build().ok()?;
+                let mut b = SecretKeyParamsBuilder::default();
+                b.version(version).key_type(pt).can_certify(true).can_sign(true).primary_user_id("mixed <m@example.org>".into()).passphrase(ppw.map(|s: &str| s.to_string())).subkey(sub);
+                // iterated S2K keeps the run cheap (the v6 default would be Argon2)
+                let key = b.build().ok()?.generate(&mut rng).ok()?;
+                let pk = key.to_public_key();
+                let msg = if v6 {
+                    let mut mb = MessageBuilder::from_bytes("", data.clone()).seipd_v2(&mut rng, SymmetricKeyAlgorithm::AES128, AeadAlgorithm::Ocb, ChunkSize::C64B);
+                    mb.encrypt_to_key(&mut rng, &pk.public_subkeys[0].key).ok()?;
+                    mb.to_vec(&mut rng).ok()?
+                } else {
+                    let mut mb = MessageBuilder::from_bytes("", data.clone()).seipd_v1(&mut rng, SymmetricKeyAlgorithm::AES128);
+                    mb.encrypt_to_key(&mut rng, &pk.public_subkeys[0].key).ok()?;
+                    mb.to_vec(&mut rng).ok()?
+                };
+                Some((key, msg))
+            });
+            let Ok(Some((key, msg))) = built else {
+                ctx.stat("mixed_lock:cannot_build");
+                continue;
+            };
+            let none: Vec<&str> = vec![];
+            let mut presentations: Vec<(Vec<&str>, bool)> = Vec::new();
+            // (key passwords presented, must it decrypt?)
+            match spw {
+                None => {
+                    presentations.push((none.clone(), true));
+                    presentations.push((vec!["unrelated"], true));
+                    if let Some(p) = ppw {
+                        presentations.push((vec![p], true));
+                    }
+                }
+                Some(s) => {
+                    presentations.push((none.clone(), false));
+                    presentations.push((vec![s], true));
+                    presentations.push((vec!["unrelated", s], true));
+                    presentations.push((vec![s, "unrelated"], true));
+                    presentations.push((vec!["unrelated", "another", s], true));
+                    presentations.push((vec!["unrelated"], false));
+                }
+            }
+            for (pws, must) in presentations {
+                let pw_objs: Vec<Password> = pws.iter().map(|p| Password::from(*p)).collect();
+                let r = guarded(|| {
+                    let m = Message::from_bytes(&msg[..]).ok()?;
+                    let ring = TheRing { secret_keys: vec![&key], key_passwords: pw_objs.iter().collect(), message_password: vec![], session_keys: vec![], decrypt_options: DecryptionOptions::new() };
+                    let (mut d, _) = m.decrypt_the_ring(ring, true).ok()?;
+                    let mut out = Vec::new();
+                    d.read_to_end(&mut out).ok()?;
+                    Some(out)
+                });
+                let got = matches!(&r, Ok(Some(o)) if *o == data);
+                let input = format!("case={ci} v6={v6} primary_locked={} subkey_locked={} key_passwords={pws:?}", ppw.is_some(), spw.is_some());
+                if must {
+                    ctx.oracle("each_recipient_alone", "Message::decrypt_the_ring (components locked differently)", &input, got, "the recipient could not decrypt");
+                } else {
+                    ctx.oracle("non_recipient_errors", "Message::decrypt_the_ring (components locked differently)", &input, !got && !matches!(r, Err(_)), "decrypted without the subkey's password, or panicked");
+                }
+                ctx.stat("mixed_lock");
+            }
+        }
+    }
+}
+
 pub fn run(ctx: &mut Ctx) {
+    mixed_lock_cases(ctx);
     long_password_cases(ctx);
     let w = World::new(ctx);
     corpus(ctx, &w);
